@@ -23,6 +23,7 @@ import (
 	"runtime"
 	"sort"
 	"sync"
+	"sync/atomic"
 	"time"
 
 	blob "github.com/siglens/siglens/pkg/blob"
@@ -332,6 +333,10 @@ func RawSearchPQMResults(req *structs.SegmentSearchRequest, fileParallelism int6
 
 	queryMetrics.SetNumBlocksInSegFile(uint64(spqmr.GetNumBlocks()))
 	runningBlockManagers.Wait()
+	// set once all block workers are done; the workers share req, so they must not write to it
+	if atomic.LoadUint64(&queryMetrics.NumRecordsMatched) > 0 {
+		req.HasMatchedRrc = true
+	}
 
 	timeElapsed := time.Since(sTime)
 	querySummary.UpdateSummary(summary.PQS, timeElapsed, queryMetrics)
@@ -460,10 +465,6 @@ func rawSearchSingleSPQMR(multiReader *segread.MultiColSegmentReader, req *struc
 				qid, aggsKeyWorkingBuf, timeRangeBuckets, nodeRes)
 		}
 		numRecsMatched := uint64(pqmr.GetNumberOfSetBits())
-
-		if numRecsMatched > 0 {
-			req.HasMatchedRrc = true
-		}
 
 		blkResults.AddMatchedCount(numRecsMatched)
 		queryMetrics.IncrementNumRecordsNoMatch(uint64(numRecsInBlock) - numRecsMatched)
